@@ -25,7 +25,11 @@ def run_schedule(sched, t_end):
     rec = sdenv.Recorder(loop)
     store = sd.TimedStore(__import__("logging").getLogger("x"))
 
+    refuse = []
+
     def cb_new(key, addr):
+        if refuse and refuse.pop():
+            raise sd.NakSubscription()      # the listener rejects: refresh() must leave no trace of this entry
         rec.emit(k="out", op="new", a=sdenv.addr_name(addr), key=key)
 
     def cb_gone(key, addr):
@@ -37,7 +41,12 @@ def run_schedule(sched, t_end):
         try:
             op = inp["op"]
             if op == "ts_refresh":
-                store.refresh(inp["ttl"], sdenv.ADDR[inp["a"]], inp["key"], cb_new, cb_gone)
+                del refuse[:]
+                refuse.append(bool(inp.get("nak")))
+                try:
+                    store.refresh(inp["ttl"], sdenv.ADDR[inp["a"]], inp["key"], cb_new, cb_gone)
+                except sd.NakSubscription:
+                    pass
             elif op == "ts_stop":
                 store.stop(sdenv.ADDR[inp["a"]], inp["key"])
             elif op == "ts_stopaddr":
@@ -76,7 +85,8 @@ def gen_history(rng, n):
         roll = rng.random()
         a, k = rng.choice(ADDRS), rng.choice(KEYS)
         if roll < 0.62:
-            inp = {"op": "ts_refresh", "a": a, "key": k, "ttl": rng.choice(TTLS if far else [1, 2, 3, 3, 2, 1, FOREVER, BIG])}
+            inp = {"op": "ts_refresh", "a": a, "key": k, "ttl": rng.choice(TTLS if far else [1, 2, 3, 3, 2, 1, FOREVER, BIG]),
+                   "nak": rng.random() < 0.2}
         elif roll < 0.8:
             inp = {"op": "ts_stop", "a": a, "key": k}
         elif roll < 0.88:
